@@ -23,9 +23,14 @@ UNITS = {
 }
 BOUNDS = ('every input string has a concrete length per query (case split): split / split_context / split_args 0..3 bytes quick, 0..5 / 0..4 / 0..5 thorough; '
           'join 0..3 items of 0..2 bytes; strip_* 0..4 (0..6); starts/ends_with strings 0..3 x prefixes 0..2 (0..4 x 0..3); toupper/tolower/skip_* 0..3 (0..5); '
-          'str_replace_all strings 0..3 (len 4 only with empty replacement), target 1..2, replacement 0..2 bytes; string_printf results 0..3 (0..8) bytes. Bytes range over all 256 values, delimiters over all 256 values, '
-          'max_splits over [0, len+1], flags symbolic. Every std::string <= 15 bytes in the P and R encodings.')
-STUBS = ['vasprintf (h_printf.c): CONTRACT stub - returns LEN symbolic bytes in a malloc buffer, or NULL/-1; string_printf itself is only checked as the wrapper around it',
+          'str_replace_all: quick strings 0..4 in 9 (length, target, replacement) cells incl. the equal-length cells (2,1,1) (3,1,1) (3,2,2) (4,2,2); thorough every string length 0..4 x target 1..2 x replacement 0..2 bytes '
+          'plus (5,2,0..2) (5,1,1) (6,2,2); one symbolic checked result position per query; '
+          'string_printf formatted results of exactly 0,1,3 and 255,256,257 bytes quick; 0,1,2,3,5,8 and n-1,n,n+1 for n in 16,64,128,256,512,1024,4096 thorough (one symbolic checked position, all bytes of the formatted output symbolic). '
+          'Bytes range over all 256 values (str_replace_all target/replacement: non-NUL), delimiters over all 256 values, '
+          'max_splits over [0, len+1], flags symbolic. Every std::string <= 15 bytes in the P and R encodings (not in unit L used for the long string_printf results).')
+STUBS = ['vasprintf and vsnprintf (h_printf.c): CONTRACT models backed by the same harness-owned formatted output F[0..LEN) of symbolic bytes: vsnprintf(buf,size) stores min(LEN,size-1) bytes + NUL when size > 0 and returns LEN; '
+         'vasprintf returns F in a malloc(LEN+1) buffer (or NULL/-1 in the printf_null cell); both check that the format and the argument arrive unchanged. string_printf itself is only checked as the wrapper around them '
+         '(/repo HEAD calls only vasprintf; vsnprintf failure (negative return) is not modelled)',
          'std::string::_M_create cut to a reported bound failure (sso_bound.c): strings longer than 15 bytes are outside the P and R encodings',
          'operator new/delete: deterministic pool allocator of engine/rt/rt_model.c (VERIF_NEW_POOL) - no use-after-delete detection in CBMC (ASan still checks the native replay)',
          'std::allocator<char> ctors/dtor as no-ops (sso_bound.c)',
@@ -34,11 +39,14 @@ STUBS = ['vasprintf (h_printf.c): CONTRACT stub - returns LEN symbolic bytes in 
          'libc ctype/mem/str functions: C-locale models in engine/rt/rt_model.c (toupper, tolower, isblank, memchr, memcmp, strlen)']
 OUTSIDE = ['strings longer than the stated lengths (the property text quantifies up to 4 KiB / 1 MiB): measured wall - split 5 bytes ~2-4 min, split_args 3 bytes 150 s, split_context 2 bytes 37 s',
            'the std::wstring overload of split (identical template text, instantiation not encoded)',
-           'the formatting done by vasprintf itself (string_printf is a thin wrapper; 1 MiB results)',
+           'the formatting done by vasprintf/vsnprintf themselves (string_printf is a thin wrapper); formatted results longer than 4097 bytes and lengths between the boundary triples (the property text quantifies up to 1 MiB): '
+           'an internal buffer whose size is not one of 16,64,128,256,512,1024,4096 is not probed at its boundary; 4096-byte cell ~80 s idle / 4-5 min on a loaded machine, 3.8 GB',
+           'str_replace_all strings of 5 bytes with a 1-byte target and replacement length 0 or 2 (measured 178 s / 236 s, dropped for the thorough budget), strings above 6 bytes, targets above 2 bytes, NUL inside target/replacement (C strings)',
            'split_args: an empty quoted region alone ("") produces no argument, unlike POSIX sh; the reference follows phosg here (not demanded by the property text), see NOTES.md',
            'exact (unmodelled-growth, CBMC-malloc) encoding beyond split on 2 bytes: no verdict within 14 GB']
 ASSUMPTIONS = ['references to vector elements are not kept across push_back by the code under test (reserve-ahead vector model, R unit)']
 FS = ['--max-field-sensitivity-array-size', '256']
+FS0 = ['--max-field-sensitivity-array-size', '0']  # str_replace_all: half the memory of 256 (symbolic offsets into the 16-byte string buffers)
 
 
 def punit(pieces):
@@ -72,7 +80,7 @@ def queries(tier):
                         'len(s) == %d, all byte values, all delimiters, max_splits in [0,%d]' % (L, L + 1)))
     for L in ([0, 1, 2] if quick else [0, 1, 2, 3, 4]):
         qs.append(Q('splitargs_len%d' % L, 'R', 'h_splitargs.c', {'LEN': L}, L + 2,
-                    'split_args on %d symbolic bytes vs reference shell-style tokenizer: exact arguments / runtime_error iff incomplete escape or open quote' % L, 'len(s) == %d, all byte values' % L))
+                    'split_args on %d symbolic bytes vs reference shell-style tokenizer: exact arguments / runtime_error iff incomplete escape or open quote' % L, 'len(s) == %d, all byte values' % L, mem_gb={3: 9, 4: 13}.get(L, 6)))  # since the split_args fix d9bec56: len 3 needs > 6 GB, len 4 > 9 GB
     names = ['trailing_zeroes', 'trailing_ws', 'leading_ws', 'ws', 'comments']
     for which in range(5):
         for L in ([0, 1, 2, 3, 4] if quick else [0, 1, 2, 3, 4, 5, 6]):
@@ -84,9 +92,11 @@ def queries(tier):
     for which, nm in ((2, 'toupper'), (3, 'tolower')):
         for L in ([0, 1, 3] if quick else [0, 1, 2, 3, 4, 5]):
             qs.append(Q('%s_len%d' % (nm, L), 'P64', 'h_misc.c', {'WHICH': which, 'LEN': L}, L + 2, nm + ' vs reference', 'len(s) == %d, all byte values' % L))
-    for L, T, R in ([(0, 1, 1), (1, 1, 0), (2, 1, 2), (2, 2, 1), (3, 2, 0), (3, 1, 1)] if quick else [(l, t, r) for l in range(0, 5) for t in (1, 2) for r in (0, 1, 2) if l < 4 or r == 0]):  # len 4 with a non-empty replacement: > 6 GB
-        qs.append(Q('replace_len%d_t%d_r%d' % (L, T, R), 'P64', 'h_misc.c', {'WHICH': 4, 'LEN': L, 'TL': T, 'RL': R}, 2 * L + 3, 'str_replace_all vs reference',
-                    'len(s) == %d, target %d bytes, replacement %d bytes (non-NUL), all byte values' % (L, T, R)))
+    # equal-length target/replacement cells (3,2,2) (4,2,2): an in-place implementation that rescans replaced text needs len >= 3, target 2
+    for L, T, R in ([(0, 1, 1), (1, 1, 0), (2, 1, 1), (2, 1, 2), (2, 2, 1), (3, 2, 0), (3, 1, 1), (3, 2, 2), (4, 2, 2)] if quick
+                    else [(l, t, r) for l in range(0, 5) for t in (1, 2) for r in (0, 1, 2)] + [(5, 2, 0), (5, 2, 1), (5, 2, 2), (5, 1, 1), (6, 2, 2)]):  # (5,1,0) 178 s, (5,1,2) 236 s: dropped (budget)
+        qs.append(Q('replace_len%d_t%d_r%d' % (L, T, R), 'P64', 'h_misc.c', {'WHICH': 4, 'LEN': L, 'TL': T, 'RL': R}, max(L, 2, (L // T) * R + L % T) + 2, 'str_replace_all vs reference',  # longest loop: copy of the longest result
+                    'len(s) == %d, target %d bytes, replacement %d bytes (non-NUL), all byte values' % (L, T, R), flags=FS0))
     for which, nm in ((5, 'skip_whitespace'), (6, 'skip_non_whitespace'), (7, 'skip_word')):
         for L in ([0, 1, 3] if quick else [0, 1, 2, 3, 4, 5]):
             qs.append(Q('%s_len%d' % (nm, L), 'P64', 'h_misc.c', {'WHICH': which, 'LEN': L}, L + 2, nm + ' (std::string and const char* overloads) vs reference',
@@ -97,7 +107,8 @@ def queries(tier):
     # boundary lengths around plausible internal buffer sizes (powers of two), unit L (no 15-byte cut)
     for L in ([255, 256, 257] if quick else [15, 16, 17, 63, 64, 65, 127, 128, 129, 255, 256, 257, 511, 512, 513, 1023, 1024, 1025, 4095, 4096, 4097]):
         qs.append(Q('printf_len%d' % L, 'L', 'h_printf.c', {'LEN': L, 'FAIL': 0}, L + 10, 'string_printf wrapper logic around the contract vsnprintf/vasprintf producing %d symbolic bytes' % L,
-                    'formatted result of %d bytes (any values incl. NUL), one symbolic checked position' % L, flags=FS + ['--memory-leak-check']))
+                    'formatted result of %d bytes (any values incl. NUL), one symbolic checked position' % L, flags=FS + ['--memory-leak-check'],
+                    mem_gb=6))  # 4096 bytes: 3.8 GB
     qs.append(Q('printf_null', 'P64', 'h_printf.c', {'LEN': 1, 'FAIL': 1}, 11, 'vasprintf yields NULL => bad_alloc', 'vasprintf failure'))
     jc = [(0, 2, 0, 1), (1, 2, 0, 1), (1, 2, 2, 1), (2, 2, 0, 1), (2, 2, 1, 2), (2, 2, 2, 1), (3, 1, 0, 1)]
     if not quick:
